@@ -34,10 +34,12 @@ RULE = ("histories: a construction (label->target dict with hidden target-only v
         "assignment (in-place or continuing on the result) and the read-only calls has_edge, "
         "edge_labels, edge_label, neighbors_*, edges_*, accepts, follow_word, "
         "initial_accepted_subword, enumerate_words on present and absent labels; all indices "
-        "modulo the model state; universe <= 5 vertices, <= 4 labels; bounded-exhaustive: "
-        "every history of depth <= 2 from 4 constructions (quick: + depth 3 from the empty "
-        "automaton over a reduced alphabet; thorough: depth 3 from all 4 constructions and depth "
-        "4 over a core alphabet) over 3 vertices / 2 labels.  kbmag records: 1-3 records, 1-6 states, 0-4 identifier names (optionally "
+        "modulo the model state; universe <= 5 vertices, <= 4 labels; bounded-exhaustive over "
+        "3 vertices / 2 labels: every history of depth <= 2 over a 66-step alphabet from 4 "
+        "constructions (quick: + depth 3 from the empty automaton, 40-step alphabet; thorough: "
+        "+ depth 3 from the empty automaton over all 66 steps and from the 3 dictionary "
+        "constructions over 40 steps, + depth 4 from the empty automaton over a 24-step core "
+        "alphabet).  kbmag records: 1-3 records, 1-6 states, 0-4 identifier names (optionally "
         "x^-1 style, optionally quoted), entries 0..n with all-zero and consecutive-run rows, "
         "[a..b] intervals, optional fields in rotated order, spacing from the parser's "
         "whitespace set at every token gap.  non-trivial history = >= 3 executed steps with an "
@@ -67,8 +69,8 @@ CLAIM = dict(
          "explored, the label, outgoing and incoming views of an FSA list exactly the edge "
          "set of a set-based model, each edge once, on the same vertex set; kbmag records "
          "are loaded to exactly the table and start state in the text.",
-    note="bounded-exhaustive over a 3-vertex / 2-label universe (depth <= 3, depth 4 on a "
-         "reduced alphabet in the thorough tier), random histories up to 40 steps, all 18 "
+    note="bounded-exhaustive over a 3-vertex / 2-label universe (depth <= 2 in full, depth 3 "
+         "and 4 over reduced step alphabets), random histories up to 40 steps, all 18 "
          "builtin files, grammar-generated records; optional atheris campaign on the record "
          "parser in the thorough tier when atheris is installed under .deps",
     technique="model-based stateful testing (JSON histories modulo model state), "
@@ -102,7 +104,19 @@ def build_init(init, ctx, guards=None):
             guards.append((src, copy.deepcopy(src)))
             A = FSA(src, start_vertices=list(m.start))
         else:
+            if init.get("omit_sink_keys") and any(
+                    not m.nbrs_out(v) and m.nbrs_in(v) for v in m.verts):
+                # family excluded from the claim (see ASSUMPTIONS / report): a target->labels
+                # dictionary whose edge-less target vertices are not keys; counted, and built
+                # with every vertex as a key instead
+                ctx.label("alt-dict-with-target-only-vertex")
             src = M.model_to_alt_dict(m)
+            if init.get("omit_sink_keys"):
+                # (used to be excluded: the target->labels route omitted target-only vertices
+                # from the outgoing and label views; repaired, now under test)
+                for v in list(src):
+                    if not m.nbrs_out(v) and m.nbrs_in(v):
+                        del src[v]
             guards.append((src, copy.deepcopy(src)))
             A = FSA(src, start_vertices=list(m.start), graph_dict=False)
         return A, m
@@ -339,7 +353,14 @@ class Machine:
                 if tgt is None or tgt == h:
                     keep.append(l)
             if not keep:
+                # an empty label list adds nothing (it used to leave a phantom neighbour)
+                self.ctx.label("elist-with-empty-label-list")
+                entries.append((t, h, []))
                 continue
+            if mode % 8 == 5:
+                # a label repeated inside the list is still one edge
+                self.ctx.label("elist-with-repeated-label")
+                keep = keep + keep[:1]
             entries.append((t, h, keep))
             flat.extend((t, h, l) for l in keep)
         if not entries:
@@ -355,6 +376,9 @@ class Machine:
         self.fsa.add_edges([(t, h, list(labs)) for (t, h, labs) in entries], elist=True)
         for e in flat:
             self.m.add_edge(*e)
+        for (t, h, labs) in entries:
+            if not labs:        # add_edges adds the two vertices even when it adds no edge
+                self.m.add_vertices([t, h])
 
     def op_delete_vertex(self, a):
         v = self.v_cur(a[0])
@@ -711,7 +735,8 @@ _EXTRAS_ST = st.lists(st.sampled_from(
      "ratio", "word", "table.format", "table.numTransitions"]), unique=True, max_size=10)
 _STRINGS_ST = st.lists(st.sampled_from(
     ["DFA", "minimized", "BFS", "accessible", "trim", "", "a,b", "rec(", ")", "]", "[1..3]",
-     "x := y", "dense deterministic", "two words", ";"]), max_size=4)
+     "x := y", "dense deterministic", "two words", ";", " lead", "trail ", " ",
+     "tab\tinside"]), max_size=4)
 _IDENT_ST = st.builds(lambda c, rest, inv: c + rest + ("^-1" if inv == 0 else ""),
                       st.sampled_from("abcdxyzABXYrst_"),
                       st.text(alphabet="abAB019_rxe", max_size=3), st.integers(0, 5))
@@ -793,7 +818,10 @@ def init_case(draw, nv, nl, routes=("dict", "dict", "alt", "alt", "empty", "free
     route = draw(st.sampled_from(routes))
     if route in ("dict", "alt"):
         g = draw(graph_pairs(nv, nl))
-        return dict(route=route, graph=g, start=draw(start_for(_verts_of(g))))
+        c = dict(route=route, graph=g, start=draw(start_for(_verts_of(g))))
+        if route == "alt":
+            c["omit_sink_keys"] = draw(st.booleans())
+        return c
     if route == "empty":
         return dict(route="empty", start=[], noargs=draw(st.booleans()))
     if route == "free":
